@@ -178,6 +178,27 @@ Definition fmt_CompressedCertificate := Msg 25 (fseq [FU 2; FU 3; FVarR 3 1 1677
    otherwise 3-byte header with a padding byte), the security-escape bit and the high length bits *)
 Definition fmt_RecordHeader2 := FTag 1 (fun b => if 128 <=? b then FU 1 else FSeq (FU 1) (FU 1)).
 
+(* RecordHeader2 as the API sees it -- create(length, padding, securityEscape) -- and the wire value
+   it denotes.  The header FORM decides how many length bits exist: 2-byte header (no padding, no
+   escape) 15 bits, 3-byte header 14 bits; anything else does not fit and must be refused. *)
+Definition rh2_short (pad : Z) (esc : bool) : bool := (pad =? 0) && negb esc.
+Definition rh2_val (len pad : Z) (esc : bool) : option val :=
+  if rh2_short pad esc then
+    if (0 <=? len) && (len <? 32768)
+    then Some (VTag (128 + len / 256) (VInt (len mod 256))) else None
+  else
+    if (0 <=? len) && (len <? 16384) && (0 <=? pad) && (pad <? 256)
+    then Some (VTag ((if esc then 64 else 0) + len / 256) (VPair (VInt (len mod 256)) (VInt pad)))
+    else None.
+(* what parse() reports for a wire value *)
+Definition rh2_fields (v : val) : option (Z * Z * bool) :=
+  match v with
+  | VTag b0 (VInt b1) => if 128 <=? b0 then Some ((b0 - 128) * 256 + b1, 0, false) else None
+  | VTag b0 (VPair (VInt b1) (VInt pad)) =>
+      if b0 <? 128 then Some ((b0 mod 64) * 256 + b1, pad, 64 <=? b0) else None
+  | _ => None
+  end.
+
 (* ClientHello, SSLv2 form (:605-621, :653-671): type, version, then the three lengths
    (modelled as tags) followed by the three fields of exactly those lengths; a cipher-spec
    length that is not a multiple of 3 is rejected by the length check *)
